@@ -106,3 +106,74 @@ def decode(res_desc, data):
     else:
         raise ValueError('unknown format %r' % fmt)
     return out
+
+
+# ---- ndjson streams / checkpoints (independent reader of the extended-JSON encoding) -------------
+
+def _untag(obj):
+    import datetime
+    import decimal
+    if isinstance(obj, list):
+        return [_untag(x) for x in obj]
+    if isinstance(obj, dict):
+        if len(obj) == 1:
+            (k, v), = obj.items()
+            if k == 'type{decimal}':
+                return decimal.Decimal(v)
+            if k == 'type{date}':
+                return datetime.date(*[int(p) for p in v.split('-')])
+            if k == 'type{time}':
+                hms, _, frac = v.partition('.')
+                h, m, s = [int(p) for p in hms.split(':')]
+                return datetime.time(h, m, s, int(frac.ljust(6, '0')) if frac else 0)
+            if k == 'type{datetime}':
+                iso, ofs, name = v
+                dpart, tpart = iso.split('T')
+                hms, _, frac = tpart.partition('.')
+                y, mo, d = [int(p) for p in dpart.split('-')]
+                h, m, s = [int(p) for p in hms.split(':')]
+                tz = None
+                if ofs is not None:
+                    td = datetime.timedelta(seconds=ofs)
+                    tz = datetime.timezone(td, name) if name is not None else datetime.timezone(td)
+                return datetime.datetime(y, mo, d, h, m, s, int(frac.ljust(6, '0')) if frac else 0, tzinfo=tz)
+            if k == 'type{set}':
+                return set(_untag(x) for x in v)
+        return {k: _untag(v) for k, v in obj.items()}
+    return obj
+
+
+def parse_ndjson(text):
+    """-> (descriptor, [rows per resource], complete: bool, problems: [str]).
+    Layout written by `stream`: descriptor line, then per resource its rows followed by one blank line."""
+    problems = []
+    lines = text.split('\n')
+    if text and not text.endswith('\n'):
+        problems.append('last line not newline-terminated')
+    if lines and lines[-1] == '':
+        lines = lines[:-1]
+    if not lines:
+        return None, [], False, ['empty']
+    try:
+        desc = json.loads(lines[0])
+    except Exception as e:
+        return None, [], False, ['descriptor line unparseable: %s' % e]
+    resources, cur, terminated = [], [], 0
+    for ln in lines[1:]:
+        if ln == '':
+            resources.append(cur)
+            cur = []
+            terminated += 1
+            continue
+        try:
+            cur.append(_untag(json.loads(ln)))
+        except Exception as e:
+            problems.append('row line unparseable: %s' % e)
+            break
+    if cur:
+        problems.append('rows after the last terminator')
+        resources.append(cur)
+    want = len(desc.get('resources', []))
+    if terminated != want:
+        problems.append('%d resource terminators for %d resources' % (terminated, want))
+    return desc, resources, not problems, problems
